@@ -42,6 +42,7 @@ impl<'tcx> Cx<'tcx> {
     pub fn path(&self, did: DefId) -> String {
         use rustc_middle::ty::print::{with_no_trimmed_paths, with_no_visible_paths};
         let p = with_no_visible_paths!(with_no_trimmed_paths!(self.tcx.def_path_str(did)));
+        let p = strip_generic_args(&p);
         if did.is_local() {
             format!("{}::{}", self.krate, p)
         } else {
@@ -77,6 +78,47 @@ impl<'tcx> Cx<'tcx> {
         use rustc_middle::ty::print::{with_no_trimmed_paths, with_no_visible_paths};
         with_no_visible_paths!(with_no_trimmed_paths!(ty.to_string()))
     }
+}
+
+/// Remove identity generic argument lists (`::<'a>`, `::<T, A>`) from a def path, keeping
+/// qualified-self segments (`<X as Trait>`, `<impl Trait for X>`): paths become stable keys.
+pub fn strip_generic_args(p: &str) -> String {
+    let b: Vec<char> = p.chars().collect();
+    let mut out = String::with_capacity(p.len());
+    let mut i = 0;
+    while i < b.len() {
+        if b[i] == ':' && i + 2 < b.len() && b[i + 1] == ':' && b[i + 2] == '<' {
+            // find the matching '>'
+            let mut depth = 0i32;
+            let mut j = i + 2;
+            let mut end = None;
+            while j < b.len() {
+                match b[j] {
+                    '<' => depth += 1,
+                    '>' if j > 0 && b[j - 1] == '-' => {}
+                    '>' => {
+                        depth -= 1;
+                        if depth == 0 {
+                            end = Some(j);
+                            break;
+                        }
+                    }
+                    _ => {}
+                }
+                j += 1;
+            }
+            if let Some(e) = end {
+                let inner: String = b[i + 3..e].iter().collect();
+                if !inner.contains(" as ") && !inner.starts_with("impl ") {
+                    i = e + 1;
+                    continue;
+                }
+            }
+        }
+        out.push(b[i]);
+        i += 1;
+    }
+    out
 }
 
 struct Cb;
